@@ -391,6 +391,8 @@ func main() {
 	nW := flag.Int("writers", 3, "RTP writer goroutines")
 	nR := flag.Int("readers", 3, "RTP reader goroutines")
 	nK := flag.Int("rtcp", 3, "RTCP reader goroutines")
+	mode := flag.String("mode", "all", "stress | scenarios | all (scenarios: counter conservation and use-after-release, see conserve.go)")
+	scale := flag.Int("scale", 1, "size multiplier of the conservation / use-after-release scenarios")
 	flag.Parse()
 	want := map[string]bool{}
 	for _, p := range strings.Split(*only, ",") {
@@ -399,8 +401,19 @@ func main() {
 		}
 	}
 	rc := 0
+	for _, sc := range scenarios() {
+		if *mode == "stress" || (len(want) > 0 && !want[sc.pkg]) {
+			continue
+		}
+		fmt.Fprintf(os.Stderr, "C10RACE-BEGIN %s\n", sc.name)
+		if err := sc.run(*scale); err != nil {
+			fmt.Fprintf(os.Stderr, "C10RACE-ERROR %s: %v\n", sc.name, err)
+			rc = 3
+		}
+		fmt.Fprintf(os.Stderr, "C10RACE-END %s\n", sc.name)
+	}
 	for _, t := range targets() {
-		if len(want) > 0 && !want[t.pkg] {
+		if *mode == "scenarios" || (len(want) > 0 && !want[t.pkg]) {
 			continue
 		}
 		fmt.Fprintf(os.Stderr, "C10RACE-BEGIN %s\n", t.name)
